@@ -166,12 +166,17 @@ def rule_kind_table(chk, fb):
         for c in arm or []:
             can |= constructible(fb, c, memo)
         ok = arm is not None and kind in can and len(ts) <= 1
+        # text must not be re-interpreted and digits must not be guessed: those kinds need a dedicated arm
+        if ok and kind in ("String", "RichText") and not can <= {"String", "RichText"}:
+            ok = False
+        if ok and kind == "Bool" and can != {"Bool"}:
+            ok = False
         chk.ob(
             ra,
             "kind(%s,formula=%d)" % (kind, f),
             ok,
             where=fb.loc(CELL + "::write_to"),
-            detail="writer emits t=%r; reader arm calls %s which can construct %s" % (t, [c.split("::")[-1] for c in (arm or [])], sorted(can)),
+            detail="writer emits t=%r; reader arm calls %s which can construct %s%s" % (t, [c.split("::")[-1] for c in (arm or [])], sorted(can), "" if ok or kind not in can else " — not a dedicated arm: the payload of a %s cell would be re-interpreted by the type guesser" % kind),
             key="kind(%s,formula=%d)%s" % (kind, f, "" if ok else ":t=%s" % t),
         )
         # payload
